@@ -14,7 +14,10 @@ THEOREMS = ['C14_cells_none_lost', 'C14_cells_none_lost_in', 'C14_cells_keys', '
             # sdf.py from TEXT (Model/SdfText.v)
             'C14_text_parse_cfile', 'C14_text_parse_print', 'C14_text_print_is_cfile', 'C14_text_ignored_text_irrelevant',
             'C14_text_skipped_items_irrelevant', 'C14_text_entry_kept', 'C14_text_entry_kept_any', 'C14_text_delayfile_of_blocks',
-            'C14_text_example', 'C14_text_name_whitespace_ends_name']
+            'C14_text_example', 'C14_text_name_whitespace_ends_name',
+            # the separators next to a name follow the lexer of fix d9c2c16 exactly
+            'C14_text_parse_cfile_v1', 'C14_text_idsep_exact', 'C14_text_comment_lexed_as_name', 'C14_text_slash_name_lost',
+            'C14_text_name_end_exact', 'C14_text_instance0_exact', 'C14_text_example_wide', 'C14_text_cfile_ok_not_necessary']
 LIBS = ['NANGATE', 'SAED32', 'SAED90', 'GSC180', 'NANGATE_ZN']
 
 
@@ -160,6 +163,19 @@ def run(ck):
                 fails.append(('text:print', d, 'sdf.py grammar: ' + of))
             tcases.extend(cs)
             tmeta.extend([d] * len(cs))
+    # structured renderings: values of the concrete syntax `cfile` with the widened separators next to names, and with ONE defect
+    n_cf = {'inside': 0, 'defect': 0, 'defect-rejected': 0}
+    for k in range(ck.scale(220, 3000)):
+        defect = None if k % 5 < 3 else st.DEFECTS[(k // 5 * 2 + k % 5 - 3) % len(st.DEFECTS)]
+        cs, d, of = st.cfile_cases(trng, defect)
+        n_cf['inside' if defect is None else 'defect'] += 1
+        n_cf['defect-rejected'] += defect is not None and not isinstance(d['lark'], list)
+        ck.count(1, 'text:cfile' + (':defect-' + defect if defect else ''))
+        ck.nontrivial(('cfile', hash(d['text']) & 0xffffff))
+        if of:
+            fails.append(('text:supported-language', {'sdf': d['text'], 'expected_tree': d['content']}, 'sdf.py grammar: ' + of))
+        tcases.extend(cs)
+        tmeta.extend([d] * len(cs))
     cs, ds = st.corner_cases()
     tcases += cs
     tmeta += ds
@@ -182,8 +198,13 @@ def run(ck):
                   f'single-character / token mutations of them ({n_rej.get("mutated-file", 0)} rejected by lark, {n_acc.get("mutated-file", 0)} accepted), rendered texts with '
                   f'arbitrary ignored text and odd names / numbers / payloads ({n_acc.get("rendered", 0) + n_acc.get("rendered-odd", 0)} accepted, {n_rej.get("rendered-odd", 0)} rejected), '
                   f'a malformed stream ({n_rej.get("malformed", 0)} rejected, {n_acc.get("malformed", 0)} accepted) and keyword soup ({n_rej.get("soup", 0)} rejected) -- both sides must '
-                  f'reject or agree on the tree; {len(st.CORNER_TEXTS)} fixed corner-case probes; float() of number texts; print_sdf output read back by lark',
-                  tran and not tbad and n_rej.get('malformed', 0) > 0 and n_rej.get('mutated-file', 0) > 0 and n_acc.get('generated', 0) > 0 and n_dom > 0,
+                  f'reject or agree on the tree; {len(st.CORNER_TEXTS)} fixed corner-case probes; float() of number texts; print_sdf output read back by lark; '
+                  f'{n_cf["inside"]} structured renderings (values of the concrete syntax cfile with any ignored text next to names that the lexer of d9c2c16 skips: '
+                  f'line breaks, CR LF, comments after a line break, tabs, form feeds, nothing next to the quoted / parenthesised form): cfile_text = the text, cfile_ok holds, '
+                  f'lark returns exactly cfile_abs; {n_cf["defect"]} renderings with ONE defect next to a name (misplaced comment, comment directly after a plain name, two plain '
+                  f'names touching, a `//` name after a line break): cfile_ok fails and lark does NOT return cfile_abs ({n_cf["defect-rejected"]} rejected)',
+                  tran and not tbad and n_rej.get('malformed', 0) > 0 and n_rej.get('mutated-file', 0) > 0 and n_acc.get('generated', 0) > 0 and n_dom > 0
+                  and n_cf['inside'] > 0 and n_cf['defect'] > n_cf['defect-rejected'] > 0,
                   'correspondence', f'failing cases {tbad[:8]} {[tmeta[b] for b in tbad[:2]]} {terr}')
     lp = st.lexer_probe()
     ck.obligation('lark builds the scanners Model/SdfText.v is transcribed from (contextual lexer; regular expressions before string literals, in the order '
@@ -205,7 +226,8 @@ def run(ck):
                   f'failing cases {bad[:8]}; first: {meta[bad[0]] if bad else ""} {err}')
     ck.rule('TEXT level: texts of the supported SDF sub-language rendered from a generator-owned tree (header entries, CELLTYPE, (INSTANCE), TIMINGCHECK '
             'payloads, quoted / escaped / edge names, empty / negative / fractional number texts, ignored text incl. comments, tabs, form feeds, \\r\\n '
-            'wherever the grammar ignores it): lark must accept and return exactly that tree')
+            'wherever the grammar ignores it; in front of a name any such text whose comments follow a line break, after a name any such text that does '
+            'not begin with a comment): lark must accept and return exactly that tree')
     ck.rule('random Verilog netlists over NANGATE/SAED32/SAED90 cells (multi-output cells, flip-flops, unconnected pins, escaped instance names, '
             'fan-out, output ports) x both branchforks settings x SDF renderings (one or several CELL blocks per instance, several instance-less '
             'blocks, several DELAY sections, interleaving, entry shuffles, posedge/negedge, empty triples and components, one or two triples, '
@@ -215,8 +237,8 @@ def run(ck):
     ck.trust('modelled, not verified: SdfTransformer.triple/sanitize/iopath/interconnect/cell/start, DelayFile.__init__/iopaths/interconnects '
              '(Model/Sdf.v; tied by exact correspondence incl. exceptions); sdf.GRAMMAR under lark 0.12 (contextual lexer, terminal order, ignore '
              'rules, LALR parser; Model/SdfText.v: parse_sdf, tied by exact correspondence on every run incl. malformed texts, code points < 256; the '
-             'theorems cover the ways of writing a file described by the concrete syntax `cfile`, texts outside it -- e.g. a name directly after a '
-             'keyword, a comment with parentheses inside a TIMINGCHECK payload -- are covered by the correspondence only); float() of number texts is '
+             'theorems cover the ways of writing a file described by the concrete syntax `cfile`, next to names its conditions are exactly what the lexer skips -- C14_text_idsep_exact / _name_end_exact / _instance0_exact; texts outside it '
+             '-- e.g. a comment with parentheses inside a TIMINGCHECK payload, a keyword not followed by its item -- are covered by the correspondence only); float() of number texts is '
              'modelled for decimals denoting k/8 with at most 15 digits (dec8; other texts: tree_of_text = None, dec_valid says whether float() raises); '
              'NOT modelled: lark itself (its behaviour on sdf.GRAMMAR is transcribed, not derived), numpy broadcasting of the slot assignment, verilog.parse (ground truth lines are located by fork names); node equality is '
              'taken as index equality (names unique per kind); a fork whose ins[0] is None is outside the model (numpy would treat None as newaxis)')
